@@ -68,9 +68,18 @@ pub fn line_text(l: &[El]) -> String {
 }
 pub fn line_text_frags(l: &[El]) -> String {
     let mut s = String::new();
+    let mut cur = String::new();
     for e in l {
         match e {
-            El::Ch(c, _) => s.push(*c),
+            El::Ch(c, t) => {
+                // show the tag vector where it changes (all-unit tags are not shown)
+                let shown = if t.chars().all(|x| x == 'U' || x == ';') { "" } else { t.as_str() };
+                if shown != cur {
+                    let _ = write!(s, "⟨{shown}⟩");
+                    cur = shown.to_string();
+                }
+                s.push(*c)
+            }
             El::Frag(n) => {
                 let _ = write!(s, "⟦#{n}⟧");
             }
